@@ -363,6 +363,8 @@ def gen_cases(rng, tier, budget):
                 if na != "none" and na not in bad_aaas:
                     assigned = na[-8:]
                     reqs = reqs + [[opt(3, assigned)], [opt(3, assigned)], [opt(3, assigned), opt(129, "08080808")]]
+            elif r < 0.015 and "X" not in evs:
+                evs.append("X")      # ... until Max-Configure is exhausted: this-layer-finished, Stopped
             elif r < 0.045 and evs.count("T") < 9:
                 evs.append("T")      # restart timer expires, restart counter > 0: the request is retransmitted
             elif r < 0.09:
@@ -475,11 +477,26 @@ def gen_cases(rng, tier, budget):
         cases.append("sl %s %s" % (start, " ".join(evs)))
         if start == "fresh" and i % 3 == 0:
             cases.append("ll fresh %s" % " ".join(evs))      # the same packets against LCP of an LNS session
+    # ---- authentication gates the NCPs
+    npa = (budget or 250) if quick else (budget or 3000)
+    for i in range(npa):
+        evs = []
+        for _ in range(rng.choice([1, 2, 3, 4])):
+            evs.append(rng.choice(["i%d.%s" % (rng.randrange(256), wire([opt(3, rng.choice(["06060606", ASSIGNED, "00000000"]))])),
+                                   "i%d.-" % rng.randrange(256), "6%d.%s" % (rng.randrange(256), wire([opt(1, "0200000000000001")])),
+                                   "T"]) if rng.random() < 0.85 else "k")
+        if i % 3 == 0:
+            evs += ["F"] + [rng.choice(["T", "T", "i9." + wire([opt(3, ASSIGNED)])]) for _ in range(rng.choice([0, 2, 4, 5]))]
+        else:
+            evs += ["S" + rng.choice([MAPPED + ASSIGNED, MAPPED + ASSIGNED, "none", MAPPED + "00000000"])]
+            evs += [rng.choice(["q%d.%s" % (rng.randrange(256), wire([opt(3, rng.choice(["06060606", ASSIGNED]))])),
+                                "q%d.-" % rng.randrange(256), "k"]) for _ in range(rng.choice([1, 2, 4]))]
+        cases.append("pa " + " ".join(evs))
     return cases
 
 
 def route(case):
-    return "sess" if case.startswith(("sess", "s6", "sl")) else ("lns" if case.startswith(("lns", "l6", "ll")) else "ppp")
+    return "sess" if case.startswith(("sess", "s6", "sl", "pa")) else ("lns" if case.startswith(("lns", "l6", "ll")) else "ppp")
 
 
 # ---------------------------------------------------------------- reading output lines
@@ -680,6 +697,20 @@ def _monitor(case, impl, out):
                     for t, d in os:
                         if t != 1 or len(d) != 16 or d == "00" * 8 or d == f[2]:
                             hit("IPv6CP Configure-Ack carries %d.%s" % (t, d))
+        elif f[0] == "pa":
+            accepted = False
+            for ev, p in zip(f[1:], impl.split(" | ")):
+                if ev[0] == "S":
+                    accepted = True
+                toks = p.split()
+                if not accepted and any(t.startswith(("sca:", "scn:", "scj:", "scr:", "v6x")) for t in toks):
+                    hit("an NCP packet (%s) left before authentication had succeeded" % toks[0])
+                kv = dict(x.split("=", 1) for x in toks if "=" in x)
+                for t in toks:
+                    if t.startswith("sca:"):
+                        for ty, d in parse_opts(t.split(":", 2)[2]):
+                            if ty == 3 and "h" + d != kv.get("pa"):
+                                hit("Configure-Ack carries address %s while %s is assigned" % (d, kv.get("pa")))
         elif f[0] in ("sl", "ll"):
             parts = impl.split(" | ")
             wire_m, clean, seen_scr = None, True, False
@@ -817,6 +848,8 @@ def nontrivial(case, out):
         return "A=" in out and len(case.split()) > (5 if k == "hi" else 3)
     if k == "fsm":
         return not out.startswith("- ;")
+    if k == "pa":
+        return "closing" in out or "sca:" in out or "scn:" in out
     if k in ("s6", "sl", "l6", "ll"):
         return "sca:" in out or "scn:" in out
     return "up=1" in out
@@ -864,6 +897,11 @@ def shrink(case):
             if len(b) <= 24:
                 for i in range(len(b)):
                     yield " ".join(f[:-1] + ["".join(b[:i] + b[i + 1:]) or "-"])
+    elif k == "pa":
+        evs = f[1:]
+        for i in range(len(evs)):
+            if len(evs) > 1:
+                yield " ".join(f[:1] + evs[:i] + evs[i + 1:])
     elif k in ("sess", "lns", "s6", "sl", "l6", "ll"):
         evs = f[2:]
         for i in range(len(evs)):
@@ -872,7 +910,7 @@ def shrink(case):
 
 
 def distribution(cases, impl):
-    d = {"ipcp": 0, "lcp": 0, "v6": 0, "hi": 0, "hl": 0, "h6": 0, "history_ops": 0, "sess_reauth": 0, "fsm": 0, "sess": 0, "lns": 0, "s6": 0, "s6_echo": 0, "sl": 0, "sl_echo": 0, "sl_restored": 0, "l6": 0, "ll": 0, "timeouts": 0, "sess_alloc": 0, "sess_conflict": 0, "options_classified": 0, "acked": 0, "nakked": 0,
+    d = {"ipcp": 0, "lcp": 0, "v6": 0, "hi": 0, "hl": 0, "h6": 0, "history_ops": 0, "sess_reauth": 0, "fsm": 0, "sess": 0, "lns": 0, "s6": 0, "s6_echo": 0, "sl": 0, "sl_echo": 0, "sl_restored": 0, "l6": 0, "ll": 0, "timeouts": 0, "pa": 0, "pa_reject": 0, "exhaust": 0, "sess_alloc": 0, "sess_conflict": 0, "options_classified": 0, "acked": 0, "nakked": 0,
          "rejected": 0, "fsm_sca": 0, "fsm_scn": 0, "fsm_scj": 0, "fsm_silent": 0, "sess_opened": 0,
          "max_options_in_request": 0, "panic_or_hang": 0}
     for c, o in zip(cases, impl):
@@ -880,6 +918,9 @@ def distribution(cases, impl):
         d[k] = d.get(k, 0) + 1
         if k in ("sess", "lns", "s6", "l6", "sl", "ll"):
             d["timeouts"] += c.split().count("T")
+            d["exhaust"] += c.split().count("X")
+        if k == "pa":
+            d["pa_reject"] += " F" in c
         if o is None:
             continue
         if o.startswith(("panic", "hang")):
